@@ -11,4 +11,11 @@ require (
 
 require google.golang.org/genproto/googleapis/api v0.0.0-20260223185530-2f722ef697dc
 
+require (
+	golang.org/x/net v0.48.0 // indirect
+	golang.org/x/sys v0.39.0 // indirect
+	golang.org/x/text v0.32.0 // indirect
+	google.golang.org/grpc v1.79.3 // indirect
+)
+
 replace connectrpc.com/vanguard => /repo
